@@ -72,3 +72,69 @@ package ipfscluster
 //@   ensures [min-max] rplMin > 0 && err == nil ==> (distinct(res) && rplMin <= len(res) && len(res) <= rplMax && (forall p peer.ID :: in(p, elems(res)) ==> hasMetric(metrics, len(metrics), p) && !in(p, elems(blacklist)))) || (res == currentAllocs && rplMin <= len(currentMetrics) && len(currentMetrics) <= rplMax)
 //@   ensures [fail-nil] err != nil ==> res == nil
 //@   modifies nothing
+
+// ---- consensus component and shared state (assumed interface contracts) ----
+
+//@ ghost var nLogPin int
+//@ ghost var nLogUnpin int
+//@ ghost var lastLogged api.Pin
+//@ ghost var lastUnlogged api.Pin
+
+//@ interface Consensus.State(ctx)
+//@   ensures err == nil ==> res != nil
+//@   modifies nothing
+
+//@ interface Consensus.LogPin(ctx, pin)
+//@   ensures nLogPin == old(nLogPin) + 1 && lastLogged == *pin
+//@   modifies nLogPin, lastLogged
+
+//@ interface Consensus.LogUnpin(ctx, pin)
+//@   ensures nLogUnpin == old(nLogUnpin) + 1 && lastUnlogged == *pin
+//@   modifies nLogUnpin, lastUnlogged
+
+//@ func (c *Cluster) PinGet
+//@   property C04 C03
+//@   ensures err == nil ==> res != nil && haskey(pinset, h) && *res == pinset[h] && res.Cid == h
+//@   ensures err != nil ==> res == nil
+//@   ensures !haskey(pinset, h) ==> err != nil
+//@   modifies nothing
+
+//@ func (c *Cluster) setupReplicationFactor
+//@   property C04 C03
+//@   ensures err == nil <==> validFactors(pin.ReplicationFactorMin, pin.ReplicationFactorMax)
+//@   ensures pin.ReplicationFactorMin == ite(old(pin.ReplicationFactorMin) == 0, c.config.ReplicationFactorMin, old(pin.ReplicationFactorMin))
+//@   ensures pin.ReplicationFactorMax == ite(old(pin.ReplicationFactorMax) == 0, c.config.ReplicationFactorMax, old(pin.ReplicationFactorMax))
+//@   ensures pin.ReplicationFactorMin == -1 && pin.ReplicationFactorMax == -1 ==> len(pin.Allocations) == 0
+//@   ensures !(pin.ReplicationFactorMin == -1 && pin.ReplicationFactorMax == -1) ==> pin.Allocations == old(pin.Allocations)
+//@   ensures [frame] forall q *api.Pin :: q != pin ==> *q == old(*q)
+//@   ensures [frame-fields] pin.Cid == old(pin.Cid) && pin.Type == old(pin.Type) && pin.MaxDepth == old(pin.MaxDepth) && pin.Reference == old(pin.Reference) && pin.Name == old(pin.Name) && pin.Mode == old(pin.Mode) && pin.ExpireAt == old(pin.ExpireAt) && pin.Metadata == old(pin.Metadata) && pin.UserAllocations == old(pin.UserAllocations) && pin.Origins == old(pin.Origins) && pin.PinUpdate == old(pin.PinUpdate) && pin.ShardSize == old(pin.ShardSize)
+//@   modifies heap(api.Pin)
+
+//@ spec func pinTypeOK(pin *api.Pin) bool = (pin.Type == api.DataType && pin.Reference == nil) || (pin.Type == api.ShardType && pin.MaxDepth == 1) || (pin.Type == api.ClusterDAGType && pin.MaxDepth == 0 && pin.Reference != nil) || (pin.Type == api.MetaType && len(pin.Allocations) == 0 && pin.Reference != nil)
+
+//@ func checkPinType
+//@   property C04
+//@   ensures err == nil <==> pinTypeOK(pin)
+//@   modifies nothing
+
+//@ func (c *Cluster) setupPin
+//@   property C04 C03
+//@   ensures err == nil ==> validFactors(pin.ReplicationFactorMin, pin.ReplicationFactorMax)
+//@   ensures err == nil ==> pin.ExpireAt == 0 || pin.ExpireAt >= old(now)
+//@   ensures err == nil && existing != nil ==> existing.Type == pin.Type && !(existing.Mode == api.PinModeRecursive && pin.Mode != api.PinModeRecursive) && pinTypeOK(pin)
+//@   ensures pin.ReplicationFactorMin == ite(old(pin.ReplicationFactorMin) == 0, c.config.ReplicationFactorMin, old(pin.ReplicationFactorMin))
+//@   ensures pin.ReplicationFactorMax == ite(old(pin.ReplicationFactorMax) == 0, c.config.ReplicationFactorMax, old(pin.ReplicationFactorMax))
+//@   ensures pin.ReplicationFactorMin == -1 && pin.ReplicationFactorMax == -1 ==> len(pin.Allocations) == 0
+//@   ensures !(pin.ReplicationFactorMin == -1 && pin.ReplicationFactorMax == -1) ==> pin.Allocations == old(pin.Allocations)
+//@   ensures [frame] forall q *api.Pin :: q != pin ==> *q == old(*q)
+//@   ensures [frame-fields] pin.Cid == old(pin.Cid) && pin.Type == old(pin.Type) && pin.MaxDepth == old(pin.MaxDepth) && pin.Reference == old(pin.Reference) && pin.Name == old(pin.Name) && pin.Mode == old(pin.Mode) && pin.ExpireAt == old(pin.ExpireAt) && pin.Metadata == old(pin.Metadata) && pin.UserAllocations == old(pin.UserAllocations) && pin.Origins == old(pin.Origins) && pin.PinUpdate == old(pin.PinUpdate) && pin.ShardSize == old(pin.ShardSize)
+//@   modifies heap(api.Pin)
+
+//@ func (rpcapi *ClusterRPCAPI) BlockAllocate
+//@   property C03
+//@   ensures rpcapi.c.config.FollowerMode ==> err != nil
+//@   ensures err == nil && in.ReplicationFactorMin < 0 ==> len(*out) == len(metrics) && (forall k int :: 0 <= k && k < len(metrics) ==> (*out)[k] == metrics[k].Peer)
+//@   ensures err == nil && in.ReplicationFactorMin >= 0 ==> *out == allocs
+//@   ensures nLogPin == old(nLogPin) && nLogUnpin == old(nLogUnpin)
+//@   loop 1 (range metrics)
+//@     invariant len(peers) == len(metrics) && (forall k int :: 0 <= k && k < idx1 ==> peers[k] == metrics[k].Peer)
